@@ -39,7 +39,8 @@ T_FLAGS = [6, 7, 8, 9]
 NALGO = 7
 HASH_FNS = ["metro", "xxhash", "blake3", "sha256", "sha512", "sha3-256", "sha3-512"]
 
-KINDS = {}      # no known class is open for C12 (KC1, KC2, KC3 are repaired in /repo)
+# KC1, KC2, KC3 are repaired in /repo.  KC4 is the limit of the design (validation by stamp only)
+KINDS = {"returning": "stale_hit_returning_stamp"}
 
 
 def code_ms(ns):
@@ -180,11 +181,74 @@ class ApiGen:
     def fresh(self, old=None):
         return self.mt.pick(old)
 
-    def mtime_for_change(self, old):
+    def mtime_for_change(self, old, f=None):
         if self.profile == "same_ms" and old is not None and self.r.chance(1, 2):
             self.feat.add("kept_ms")
             return self.mt.pick(old, collide=True)
+        # a RETURNING stamp: the mtime this file had two states ago is set back after a same-size rewrite
+        hist = f.get("hist", []) if f else []
+        if len(hist) >= 2 and code_ms(hist[-2]) != code_ms(hist[-1]) and \
+                self.r.chance(*((1, 2) if self.profile == "returning" else (1, 12))):
+            self.feat.add("returning_stamp")
+            self.mt.classes.append("returns_2_back")
+            return hist[-2]
         return self.mt.pick(old)
+
+    def generate_returning(self):
+        """run; touch (mtime only); [run with the same / another configuration | nothing]; same-size rewrite that sets the
+        first mtime back; run.  With the middle run on the same keys put overwrites the entries (safe); without it the
+        first entries are served (KC4)."""
+        r = self.r
+        for _ in range(2 + r.below(2)):
+            free = [n for n in range(1, 5) if n not in self.files]
+            p = r.choice(free)
+            d, mt = self.content() or self.word(3), self.fresh()
+            self.ops.append("c:%d:%s:%d" % (p, dots(d), mt))
+            self.files[p] = {"data": d, "mt": mt, "hist": [mt]}
+        a, tr = r.choice(self.algos), r.choice(self.trs)
+        names = sorted(self.files)
+        calls = []
+        for nm in names:
+            ln = len(self.files[nm]["data"])
+            if tr == "-":
+                calls += ["H:%d:0:%d" % (nm, ln), "H:%d:0:2" % nm]
+            else:
+                calls.append("X:%d:0:%d" % (nm, ln))
+        session = lambda aa, tt: ["HO:%d:%s" % (aa, tt)] + [c for c in calls if (tt == "-") == c.startswith("H")] + ["HC"]
+        self.ops += session(a, tr)
+        victims = [nm for nm in names if r.chance(2, 3)] or names[:1]
+        for nm in victims:
+            f = self.files[nm]
+            mt = self.fresh(f["mt"])
+            self.ops.append("u:%d:%d" % (nm, mt))
+            f["mt"] = mt
+            f["hist"].append(mt)
+        k = r.below(4)
+        if k <= 1:
+            self.ops += session(a, tr)                        # refreshed
+            self.feat.add("returning_refreshed")
+        elif k == 2:
+            other = (a + 1) % NALGO
+            self.ops += session(other, tr)                    # hashed, but into another tree
+            self.feat.add("returning_other_tree")
+        else:
+            self.feat.add("returning_unrefreshed")
+        for nm in victims:
+            f = self.files[nm]
+            d = list(f["data"])
+            d[r.below(len(d))] = 97 + r.below(26)
+            mt = f["hist"][-2]
+            self.mt.classes.append("returns_2_back")
+            self.ops.append("w:%d:%s:%d" % (nm, dots(d), mt))
+            f["data"], f["mt"] = d, mt
+            f["hist"].append(mt)
+        self.feat.add("returning_stamp")
+        self.ops += session(a, tr)
+        for _ in range(r.below(3)):
+            self.edit()
+            if r.chance(1, 2):
+                self.hasher_session()
+        return self.ops
 
     def word(self, n):
         return [97 + self.r.below(4) if self.r.chance(3, 4) else 97 + self.r.below(26) for _ in range(n)]
@@ -209,6 +273,13 @@ class ApiGen:
         return w
 
     def edit(self):
+        self.edit0()
+        for f in self.files.values():
+            h = f.setdefault("hist", [])
+            if not h or h[-1] != f["mt"]:
+                h.append(f["mt"])
+
+    def edit0(self):
         r = self.r
         names = sorted(self.files)
         free = [n for n in range(1, 5) if n not in self.files]
@@ -227,7 +298,7 @@ class ApiGen:
             d = list(f["data"])
             if d:
                 d[r.below(len(d))] = 97 + r.below(26)
-            mt = self.mtime_for_change(f["mt"])
+            mt = self.mtime_for_change(f["mt"], f)
             self.ops.append("w:%d:%s:%d" % (p, dots(d), mt))
             f["data"], f["mt"] = d, mt
             self.feat.add("rewrite_same_size")
@@ -327,6 +398,10 @@ class ApiGen:
 
     def generate(self):
         r = self.r
+        if self.profile == "returning" and r.chance(3, 4):
+            self.dir = False
+            ops = self.generate_returning()
+            return ops
         self.dir = r.chance(1, 5) and self.profile == "clean"
         if self.dir:
             self.ops.append("m:5:%d" % self.fresh())
@@ -440,19 +515,26 @@ def api_examine(ctx, r, profile, count=True):
             ref = it.split("~")[1]
             got = ia[3:] if ia.startswith("ok:") else ia
             if got != ref:
-                oracle_fail.append((i, op, got, ref))
+                oracle_fail.append((i, op, got, ref, ia == ma))
     if count:
         ctx.count(len(ops))
     r["oracle_fail"] = oracle_fail
     return status, detail
 
 
-def classify(fl):
-    """kind of an oracle failure in a sequence whose model flags are fl; None = excluded by the proviso
-    (equal (ino, ms as the cache rounds it, length) for different contents somewhere in the sequence)"""
-    if fl.get("sd") != "1":
+def classify(fl, model_agrees=True):
+    """kind of an oracle failure (cached != uncached) in a sequence whose model flags are fl.
+    sd = pairwise proviso (stamp_determines_b), sw = step-by-step proviso (stepwise_b).
+      sd holds                      -> a violation under every reading
+      neither holds                 -> None: excluded by the proviso
+      only sw holds (returning stamp): the unmodified code serves the old entry when nothing re-hashed the key in
+          between (KC4, the model predicts exactly that); if the MODEL predicts the fresh answer and the implementation
+          is stale, the implementation lost the overwrite: a violation with a concrete input"""
+    if fl.get("sd") == "1":
+        return "cached_differs_from_uncached"
+    if fl.get("sw") != "1":
         return None
-    return "cached_differs_from_uncached"
+    return KINDS["returning"] if model_agrees else "cached_differs_from_uncached"
 
 
 def api_level(ctx, model):
@@ -462,8 +544,8 @@ def api_level(ctx, model):
     seqs, profs = [], {}
     for i in range(n):
         k = rng.below(100)
-        prof = ("clean" if k < 58 else "same_ms" if k < 70 else "preepoch" if k < 80 else "flags" if k < 90
-                else "alias" if k < 95 else "none")
+        prof = ("clean" if k < 50 else "same_ms" if k < 60 else "preepoch" if k < 70 else "flags" if k < 80
+                else "returning" if k < 92 else "alias" if k < 96 else "none")
         g = ApiGen(rng.fork(), prof)
         ops = g.generate()
         sid = "s%d" % i
@@ -489,7 +571,8 @@ def api_level(ctx, model):
             continue
         hits = int(fl.get("hits", "0"))
         ctx.bump("api_cache_hits_in_sequence", min(hits, 6))
-        ctx.bump("api_proviso", "holds" if fl.get("sd") == "1" else "violated_by_construction")
+        ctx.bump("api_proviso", "pairwise_holds" if fl.get("sd") == "1" else
+                 "only_step_by_step_holds(returning_stamp)" if fl.get("sw") == "1" else "violated_by_construction")
         inos = [t for t in r["impl"] if t.startswith("i") and t[1:].isdigit()]
         if len(inos) != len(set(inos)):
             ctx.bump("api_inode_reuse", "reused")
@@ -500,8 +583,8 @@ def api_level(ctx, model):
             corr.append((r, detail))
         poisoned = any(o.startswith("P:") for o in r["ops"])
         ctx.bump("api_oracle", "off_arbitrary_puts" if poisoned else "on")
-        for (i, op, got, ref) in r.get("oracle_fail", []):
-            kind = classify(fl)
+        for (i, op, got, ref, agrees) in r.get("oracle_fail", []):
+            kind = classify(fl, agrees)
             if poisoned:
                 continue
             if kind is None:
@@ -573,8 +656,8 @@ def api_disagreement(ctx, model, corr, profs):
         nb = api_run(ctx, variants, model, scratch)
         for v in nb:
             st, _ = api_examine(ctx, v, "nb", count=False)
-            for (i, op, got, ref) in v.get("oracle_fail", []):
-                kind = classify(v["flags"])
+            for (i, op, got, ref, agrees) in v.get("oracle_fail", []):
+                kind = classify(v["flags"], agrees)
                 if kind == "cached_differs_from_uncached":
                     found = (v, i, op, got, ref)
                     break
@@ -798,7 +881,42 @@ class CliGen:
             cfg["kill_ms"] = r.choice([0, 2, 5, 10, 20, 40])
         return cfg
 
+    def generate_returning(self, refreshed):
+        """run; touch; [run, same configuration]; same-size rewrite that sets the first mtime back; run.
+        Triples fa = fb (duplicates) and fc (same size, other content); fb is rewritten to fc's content."""
+        r = self.r
+        cfg = self.run_cfg(None)
+        cfg["kill_ms"] = None
+        if cfg["transform"] in ("failz", "head"):
+            cfg["transform"] = "-"
+        edits0, triples = [], []
+        for t in range(2 + r.below(3)):
+            size = r.choice(self.sizes)
+            d1 = self.desc(size)
+            d2 = {"size": size, "mods": [list(m) for m in d1["mods"]] + [[r.choice([10, 4500, -10, 30000]) , 70 + r.below(5)]]}
+            names = [self.new_name() for _ in range(3)]
+            for nm, d in zip(names, (d1, d1, d2)):
+                mt = self.fresh()
+                edits0.append({"op": "create", "path": nm, "desc": d, "mt": mt, "mt_class": self.mt.classes[-1]})
+            triples.append((names, d2, edits0[-2]["mt"]))
+        touches = []
+        for names, d2, mt1 in triples:
+            mt = self.fresh(mt1)
+            touches.append({"op": "touch", "path": names[1], "mt": mt, "mt_class": self.mt.classes[-1]})
+        rewrites = [{"op": "write", "path": names[1], "desc": d2, "mt": mt1, "mt_class": "returns_2_back"}
+                    for names, d2, mt1 in triples]
+        self.feat.add("returning_stamp")
+        steps = [{"edits": edits0, "run": dict(cfg)}]
+        if refreshed:
+            steps.append({"edits": touches, "run": dict(cfg)})
+            steps.append({"edits": rewrites, "run": dict(cfg)})
+        else:
+            steps.append({"edits": touches + rewrites, "run": dict(cfg)})
+        return steps
+
     def generate(self):
+        if self.profile in ("returning", "returning_refreshed"):
+            return self.generate_returning(self.profile == "returning_refreshed")
         steps, prev = [], None
         for i in range(self.nsteps):
             edits = [self.edit() for _ in range((9 + self.r.below(6)) if i == 0 else (1 + self.r.below(4)))]
@@ -948,8 +1066,16 @@ def cli_exec(fclones, hdir, bindir, steps, base, order_rng=None, stats=None):
 
 
 def neutralise(steps, profile):
-    """the same history with the trigger of a known class removed (no class is known at present)"""
-    return json.loads(json.dumps(steps))
+    """the same history with the trigger of the known class removed"""
+    s = json.loads(json.dumps(steps))
+    if profile == "returning":          # KC4: the restored mtimes become fresh ones
+        k = 0
+        for st in s:
+            for e in st["edits"]:
+                if e.get("mt_class") == "returns_2_back":
+                    k += 1
+                    e["mt"] = 1_900_000_000_000_000_000 + k * 1_000_000
+    return s
 
 
 def shrink(fclones, hdir, bindir, steps, base, budget=24):
@@ -991,7 +1117,7 @@ def cli_history_check(ctx, fclones, bindir, base, hid, profile, steps, order_see
     return res
 
 
-KINDS_CLI = {}
+KINDS_CLI = {"returning": KINDS["returning"]}
 
 
 def corpus_histories():
@@ -1022,7 +1148,8 @@ def cli_level(ctx, only=None):
         n = ctx.pick(36, 600)
         for i in range(n):
             k = rng.below(100)
-            prof = "clean" if k < 70 else "preepoch" if k < 80 else "flags" if k < 90 else "alias" if k < 95 else "none"
+            prof = ("clean" if k < 62 else "preepoch" if k < 70 else "flags" if k < 78 else "returning_refreshed" if k < 88
+                    else "returning" if k < 92 else "alias" if k < 96 else "none")
             nsteps = 1 + rng.below(6)
             g = CliGen(rng.fork(), prof, nsteps)
             steps = g.generate()
@@ -1084,7 +1211,8 @@ def run(ctx):
                 "sequence); mtimes from a pool (whole seconds, same-second pairs incl. from/to .000, +-1 ms, older mtimes restored, "
                 "pre-epoch, epoch edge; unique ms stamps so the proviso holds by construction); profiles clean / same_ms (proviso "
                 "violated on purpose: the model must predict the stale answer) / preepoch / flags (--in-place, --no-copy variants) / "
-                "alias, none (transform ids that coincided before ea68843: regression); one evaluation = one op answer compared with the model; "
+                "alias, none (transform ids that coincided before ea68843: regression) / returning (run; touch; [run]; same-size rewrite that "
+                "sets the first mtime back; run — the step-by-step proviso holds, the pairwise one does not); one evaluation = one op answer compared with the model; "
                 "non-trivial = at least one call answered from the cache; distinct = distinct op sequence.  "
                 "(b) CLI: histories of 1..6 steps (1-11 edits; `group --cache` with hash function / transform / prefix / suffix / "
                 "skip-content switches, optionally preceded by a SIGKILLed run) over trees of files of sizes around 4 KiB and "
@@ -1120,8 +1248,8 @@ def run(ctx):
             if st in ("corr", "crash"):
                 ctx.violation({"kind": "model_differs_from_implementation", "level": "api"}, str(detail),
                               {"level": "api", "line": rp["line"], "disagreement": detail}, found_input=False)
-            for (i, op, got, ref) in res[0].get("oracle_fail", []):
-                kind = classify(res[0]["flags"])
+            for (i, op, got, ref, agrees) in res[0].get("oracle_fail", []):
+                kind = classify(res[0]["flags"], agrees)
                 if kind:
                     ctx.violation({"kind": kind, "level": "api"}, "cached %s, uncached %s for op %d (%s)" % (got, ref, i, op),
                                   {"level": "api", "line": rp["line"], "op_index": i}, found_input=True)
